@@ -40,7 +40,7 @@ ASSUMPTIONS = [
 ]
 SHARDS = {"quick": 16, "thorough": 16}
 TIMEOUT = {"quick": 900, "thorough": 7200}
-MIN_CASES = {"quick": 15000, "thorough": 200000}
+MIN_CASES = {"quick": 15000, "thorough": 250000}
 REQUIRED_COUNTERS = [
     "honest_accepted", "accessory_accepted_m3", "keys_compared", "resume_accepted", "adversarial_rejected",
     "m2_bitflips", "m4_bitflips", "ip_end_to_end_sessions", "ble_end_to_end_sessions", "coap_end_to_end_sessions",
@@ -433,7 +433,7 @@ async def ip_end_to_end(ctx, idx) -> None:
 
 
 def run(ctx) -> None:
-    n_rec = ctx.pick(20, 300)
+    n_rec = ctx.pick(20, 2000)
     for idx in range(n_rec):
         if not ctx.mine(idx):
             continue
@@ -463,7 +463,7 @@ def run(ctx) -> None:
     from vf.props import c01_transports
 
     async def e2e():
-        for idx in range(ctx.pick(16, 120)):
+        for idx in range(ctx.pick(16, 600)):
             if ctx.mine(idx):
                 await ip_end_to_end(ctx, idx)
         if BLE_COAP_BUILT:
